@@ -21,6 +21,10 @@ CONSTANTS
  DevFetchAclOnRequestName = ${13}
  DevStaleOwnedOnSessionReplace = ${14}
  DevLeaseErrMisindexed = ${MIS:-FALSE}
+ MidOn = ${MID:-FALSE}
+ DevAclCacheNoAction = ${CACHE:-FALSE}
+ DevLateAcquireAfterRelease = ${LATE:-FALSE}
+ DevReacquireUnconditional = ${UNC:-FALSE}
 INIT Init
 NEXT Next
 INVARIANTS ${15}
@@ -30,19 +34,24 @@ EOF
 }
 C24="C24_NoEffect C24_AuthError C24_NoLeak"
 C19="C19_AckOnlyIfHeld C19_NoWriteUnlessHeld C19_RefusalCode C19_NotLeaderForOtherOwner"
-INT="OwnsImpliesKey KnownHavePartitions"
+INT="OwnsImpliesKey KnownHavePartitions Exclusive"
 mk MC_Handler_quick.cfg AllApis 2 1 1 FALSE BothAuto TRUE TRUE NoApis none FALSE FALSE FALSE "$C24 $C19 $INT" "VIEW View"
 mk MC_Handler_thorough.cfg AllApis 2 2 1 FALSE BothAuto FALSE TRUE NoApis none FALSE FALSE FALSE "$C24 $C19 $INT" "VIEW View"
 mk MC_HandlerLease_quick.cfg DataApis 2 1 2 TRUE BothAuto FALSE TRUE NoApis none FALSE FALSE FALSE "$C24 $C19 $INT" "VIEW View"
 mk MC_HandlerLease_thorough.cfg DataApis 3 2 2 TRUE BothAuto FALSE TRUE NoApis none FALSE FALSE FALSE "$C24 $C19 $INT" "VIEW View"
 # lease sessions: three single-partition produces around a session expiry / monitor run / foreign acquisition
 mk MC_HandlerLeaseSess.cfg ProduceOnly 1 3 3 TRUE AutoOn FALSE TRUE NoApis none FALSE FALSE FALSE "$C19 $INT" "VIEW View"
+# produces with an environment step inside the lease acquisition, previous-incarnation keys
+MID=TRUE mk MC_HandlerLeaseMid.cfg ProduceOnly 1 2 2 TRUE AutoOn FALSE TRUE NoApis none FALSE FALSE FALSE "$C19 $INT" "VIEW View"
+MID=TRUE LATE=TRUE mk Dev_HandlerLease_LateAcquireAfterRelease.cfg ProduceOnly 1 2 1 TRUE AutoOn FALSE TRUE NoApis none FALSE FALSE FALSE "$C19" "VIEW View"
+MID=TRUE UNC=TRUE mk Dev_HandlerLease_ReacquireUnconditional.cfg ProduceOnly 1 2 1 TRUE AutoOn FALSE TRUE NoApis none FALSE FALSE FALSE "$C19" "VIEW View"
 mk Enum_Handler.cfg AllApis 2 1 0 FALSE BothAuto TRUE TRUE NoApis none FALSE FALSE FALSE "EmitSched $C24" ""
 mk Enum_HandlerLease.cfg ProduceOnly 3 1 2 TRUE AutoOn FALSE TRUE NoApis none FALSE FALSE FALSE "EmitSched $C19" ""
 mk Sim_Handler.cfg AllApis 2 4 2 FALSE BothAuto TRUE TRUE NoApis none FALSE FALSE FALSE "EmitSched $C24" ""
-mk Sim_HandlerLease.cfg DataApis 3 4 4 TRUE BothAuto FALSE TRUE NoApis none FALSE FALSE FALSE "EmitSched $C19 $C24" ""
+MID=TRUE mk Sim_HandlerLease.cfg DataApis 3 4 4 TRUE BothAuto FALSE TRUE NoApis none FALSE FALSE FALSE "EmitSched $C19 $C24" ""
 mk Dev_Handler_MetaNoAcl.cfg AllApis 2 1 0 FALSE BothAuto FALSE FALSE NoApis none FALSE FALSE FALSE "$C24" "VIEW View"
 mk Dev_Handler_AclAfterAppend.cfg DataApis 2 1 0 FALSE BothAuto FALSE TRUE NoApis acl FALSE FALSE FALSE "$C24" "VIEW View"
+CACHE=TRUE mk Dev_Handler_AclCacheNoAction.cfg DataApis 1 2 0 FALSE BothAuto FALSE TRUE NoApis none FALSE FALSE FALSE "$C24" "VIEW View"
 mk Dev_Handler_FetchAclOnRequestName.cfg DataApis 1 1 0 FALSE BothAuto FALSE TRUE NoApis none FALSE TRUE FALSE "$C24" "VIEW View"
 mk Dev_HandlerLease_GateAfterAppend.cfg ProduceOnly 2 1 2 TRUE AutoOn FALSE TRUE NoApis lease FALSE FALSE FALSE "$C19" "VIEW View"
 mk Dev_HandlerLease_LeaseCheckSkipped.cfg ProduceOnly 2 1 2 TRUE AutoOn FALSE TRUE NoApis none TRUE FALSE FALSE "$C19" "VIEW View"
